@@ -761,6 +761,16 @@ def run(ctx):
                                                        taumax=tm * k, lag=lag * k))
             g6 = "raise:" + type(r6).__name__ if isinstance(r6, Exception) else \
                 ",".join(exact_f64(v) for v in r6)
+            if lag == 0:
+                # exchange at lag 0 is exact in IEEE double (rounding is odd; theorem
+                # es_float_exchange_lag0)
+                r7 = call(lambda: ES.event_synchronization(ay, ax, ts1=a2, ts2=a1, taumax=tm, lag=0.0))
+                g7 = "raise:" + type(r7).__name__ if isinstance(r7, Exception) else \
+                    ",".join(exact_f64(v) for v in r7[::-1])
+                if g7 != got:
+                    ctx.fail({"kind": "exchange-float", "method": "event_synchronization"},
+                             f"ES(x,y) = {got} but ES(y,x) reversed = {g7} on non-representable "
+                             "time stamps (lag 0)", rep)
             if g6 != got:
                 ctx.fail({"kind": "scale-pow2-float", "method": "event_synchronization"},
                          f"ES on non-representable time stamps changes under the exact rescaling of "
